@@ -65,7 +65,13 @@ func (v *Verifier) addInstrWrites(fn *ssa.Function, in ssa.Instruction, ws map[s
 			}
 		}
 	case *ssa.Store:
+		// a store into an object allocated by this very code (function body, or the current loop
+		// iteration when curLoopBody is set) cannot touch an object that existed before
+		if ra, ok := rootAlloc(x.Addr); ok && ra.Heap && (curLoopBody == nil || curLoopBody[ra.Block()]) {
+			regFresh = true
+		}
 		v.addrWrites(x.Addr, ws, cells)
+		regFresh = false
 	case *ssa.MapUpdate:
 		regM(under(x.Map.Type()).(*types.Map), ws)
 	case *ssa.Call:
@@ -136,6 +142,9 @@ func (v *Verifier) addrWrites(addr ssa.Value, ws map[string]bool, cells map[*ssa
 	}
 	regH(root, ws, lo, hi)
 }
+
+// curLoopBody: set while the write set of one loop is computed
+var curLoopBody map[*ssa.BasicBlock]bool
 
 // regFresh: true while registering writes that only initialise freshly allocated objects.
 // Keys "!name" mark components that may be written at pre-existing objects.
@@ -251,7 +260,11 @@ func (v *Verifier) callWrites(fn *ssa.Function, cc *ssa.CallCommon, ws map[strin
 	if len(callee.Blocks) == 0 {
 		return
 	}
-	for c := range v.writeSetRec(callee, visiting) {
+	saved := curLoopBody
+	curLoopBody = nil // inside the callee every object it allocates is new relative to the caller
+	sub := v.writeSetRec(callee, visiting)
+	curLoopBody = saved
+	for c := range sub {
 		ws[c] = true
 	}
 }
@@ -292,11 +305,13 @@ type sliceWrite struct {
 func (v *Verifier) loopWriteSet(fn *ssa.Function, li *loopInfo) (map[string]bool, map[*ssa.Alloc]bool) {
 	ws := map[string]bool{}
 	cells := map[*ssa.Alloc]bool{}
+	curLoopBody = li.body
 	for b := range li.body {
 		for _, in := range b.Instrs {
 			v.addInstrWrites(fn, in, ws, cells, map[*ssa.Function]bool{fn: true})
 		}
 	}
+	curLoopBody = nil
 	// recursion through the enclosing function itself
 	for b := range li.body {
 		for _, in := range b.Instrs {
@@ -413,7 +428,51 @@ func (ex *Exec) cutLoop(fr *Frame, li *loopInfo, pc *Term, st *State, nloops int
 			st.setComp(n, cur)
 			continue
 		}
-		st.setComp(n, Fresh("loop$"+n, srt))
+		nw := Fresh("loop$"+n, srt)
+		st.setComp(n, nw)
+		if strings.HasPrefix(n, "E|") && ex.onlyLocalLinearAppends(fr, li, n) {
+			// the only writers are appends to local linear slices, whose arrays were all allocated by
+			// this function: arrays that existed when the function was entered are untouched
+			a := Bound("a", BV64)
+			ex.assume(pc, Forall([]*Term{a}, Implies(ULt(a, fr.entryNext), Eq(Select(nw, a), Select(cur, a))), []*Term{Select(nw, a)}))
+		}
+	}
+	// heap invariant at the cut point: every identifier stored in the components the loop
+	// touches denotes an object that exists now (no dangling pointers)
+	touched := map[string]bool{}
+	for n := range ws {
+		if n != "next" && n[0] != '!' {
+			touched[n] = true
+		}
+	}
+	var bl []*ssa.BasicBlock
+	for b := range li.body {
+		bl = append(bl, b)
+	}
+	for n := range ex.V.blockReads(bl) {
+		touched[n] = true
+	}
+	var tn []string
+	for n := range touched {
+		if compPtr[n] && compSorts[n] != nil {
+			tn = append(tn, n)
+		}
+	}
+	sort.Strings(tn)
+	for _, n := range tn {
+		srt := compSorts[n]
+		c := st.comp(n, srt)
+		i := Bound("i", srt.Idx)
+		if srt.Elem.IsArray() {
+			j := Bound("j", srt.Elem.Idx)
+			sel := Select(Select(c, i), j)
+			if sel.Sort == BV64 {
+				ex.assume(pc, Forall([]*Term{i, j}, ULt(sel, st.next), []*Term{sel}))
+			}
+		} else if srt.Elem == BV64 {
+			sel := Select(c, i)
+			ex.assume(pc, Forall([]*Term{i}, ULt(sel, st.next), []*Term{sel}))
+		}
 	}
 	if fr.loopRecs == nil {
 		fr.loopRecs = map[*loopInfo]*loopRec{}
@@ -547,4 +606,45 @@ func (v *Verifier) loopSliceWrites(fn *ssa.Function, li *loopInfo, cells map[*ss
 		}
 	}
 	return out, bad
+}
+
+// onlyLocalLinearAppends: in this loop, component n (an E component) is written only by linear
+// appends to local (non-parameter) slice variables
+func (ex *Exec) onlyLocalLinearAppends(fr *Frame, li *loopInfo, n string) bool {
+	if fr.entryNext == nil {
+		return false
+	}
+	found := false
+	for b := range li.body {
+		for _, in := range b.Instrs {
+			tmp := map[string]bool{}
+			tc := map[*ssa.Alloc]bool{}
+			curLoopBody = li.body
+			ex.V.addInstrWrites(fr.fn, in, tmp, tc, map[*ssa.Function]bool{fr.fn: true})
+			curLoopBody = nil
+			if !tmp["!"+n] {
+				continue
+			}
+			call, ok := in.(*ssa.Call)
+			if !ok {
+				return false
+			}
+			bi, ok := call.Call.Value.(*ssa.Builtin)
+			if !ok || bi.Name() != "append" || !ex.linearAppend(fr, call) {
+				return false
+			}
+			ld, _ := call.Call.Args[0].(*ssa.UnOp)
+			al, isAlloc := ld.X.(*ssa.Alloc)
+			if !isAlloc {
+				return false
+			}
+			for i := range fr.fn.Params {
+				if isParamSpill(al, fr.fn, i) {
+					return false
+				}
+			}
+			found = true
+		}
+	}
+	return found
 }
